@@ -357,6 +357,7 @@ pub fn run_history(scratch: &Path, h: &[Op]) -> HistOutcome {
                         MType::Generic => run_handle::<GenericMetadata>(&bc, &ln, script, &side, log.clone()),
                         MType::V1 => run_handle::<V1>(&bc, &ln, script, &side, log.clone()),
                         MType::V2 => run_handle::<V2>(&bc, &ln, script, &side, log.clone()),
+                        MType::Opt => run_handle::<crate::props::c01::Opt>(&bc, &ln, script, &side, log.clone()),
                     };
                     let own_before = model.layer(lname).clone();
                     let (want, want_log) = model_handle(model.layer(lname), &lpath, *m, script);
@@ -600,7 +601,7 @@ fn reduced_alphabet() -> Vec<Op> {
 }
 
 pub fn run(ctx: &Ctx) {
-    ctx.set_rule("bounded-exhaustive: every history [h], [h, h2], [h, restore, h2] over a reduced alphabet of 72 scripted handle_layer calls on one layer (metadata type V1/V2 x strategy keep/update/recreate/error x migrate recreate/replace/error x create+update results rich/plain/error) = 10 440 histories; sampled: histories of handle_layer calls over 3 layer names interleaved with simulated lifecycle restores; the Layer implementation is fully scripted per call: types (8 flag combinations), metadata type {generic, V1, V2} (alternating types reach the migration path after restores), existing_layer_strategy in {keep, update, recreate, error}, migrate_incompatible_metadata in {recreate, replace with a valid value, error}, create/update returning metadata, env None | the env of the LayerData handed to update (the trait's default update) | Some(entries over all/build/launch/process with byte-string names), 0..3 exec.d programs, 0..3 SBOMs, plain files written into the layer path (also bin/ lib/ include/ pkgconfig/), or an error. Oracle after EVERY call: callback log (create/update exactly once when due and never otherwise; strategy/migration with the right arguments, consecutive identical repeats collapsed; create on an empty directory) == model; Err iff a callback returned Err (the layer may then be as before, as far as the model got, or absent); disk == model (files bytewise via an independent env renderer, content metadata via Python tomllib, SBOMs); other layers byte-identical; returned LayerData (name, path, types, metadata, env applied for all scopes incl. per-process and unknown process to 3 starting envs, incl. implicit layer paths) == disk. Non-trivial: >= 2 handle_layer calls on the same name separated by a restore, with a layer result that carried a per-process env entry, an SBOM or an exec.d program; distinct = hash of the operation list.");
+    ctx.set_rule("bounded-exhaustive: every history [h], [h, h2], [h, restore, h2] over a reduced alphabet of 72 scripted handle_layer calls on one layer (metadata type V1/V2 x strategy keep/update/recreate/error x migrate recreate/replace/error x create+update results rich/plain/error) = 10 440 histories; sampled: histories of handle_layer calls over 3 layer names interleaved with simulated lifecycle restores; the Layer implementation is fully scripted per call: types (8 flag combinations), metadata type {generic, V1, V2, Opt — all fields optional} (alternating types reach the migration path after restores), existing_layer_strategy in {keep, update, recreate, error}, migrate_incompatible_metadata in {recreate, replace with a valid value, error}, create/update returning metadata, env None | the env of the LayerData handed to update (the trait's default update) | Some(entries over all/build/launch/process with byte-string names), 0..3 exec.d programs, 0..3 SBOMs, plain files written into the layer path (also bin/ lib/ include/ pkgconfig/), or an error. Oracle after EVERY call: callback log (create/update exactly once when due and never otherwise; strategy/migration with the right arguments, consecutive identical repeats collapsed; create on an empty directory) == model; Err iff a callback returned Err (the layer may then be as before, as far as the model got, or absent); disk == model (files bytewise via an independent env renderer, content metadata via Python tomllib, SBOMs); other layers byte-identical; returned LayerData (name, path, types, metadata, env applied for all scopes incl. per-process and unknown process to 3 starting envs, incl. implicit layer paths) == disk. Non-trivial: >= 2 handle_layer calls on the same name separated by a restore, with a layer result that carried a per-process env entry, an SBOM or an exec.d program; distinct = hash of the operation list.");
     ctx.set_exhaustive(true);
     ctx.extra("exhaustive_subspace", json!("histories of length <= 2 (+ a restore in between) over the reduced alphabet; longer histories are sampled"));
     ctx.assume("callbacks obey the trait's documented contract (write only below layer_path, types() pure); the lifecycle is the abstraction of C01's quantifier");
@@ -686,6 +687,7 @@ pub fn apply_ops_named(bc: &BuildContext<HB>, ops: &[Op], side: &Path, names: &[
                 MType::Generic => run_handle::<GenericMetadata>(bc, &ln, script, side, log),
                 MType::V1 => run_handle::<V1>(bc, &ln, script, side, log),
                 MType::V2 => run_handle::<V2>(bc, &ln, script, side, log),
+                MType::Opt => run_handle::<crate::props::c01::Opt>(bc, &ln, script, side, log),
             };
             if let Err(e) = r {
                 if !e.starts_with("buildpack-error") {
